@@ -33,6 +33,18 @@ CLAIMED = {
              'top-level field/tag at a time in the quick tier (rest of the document a fixed valid instance). Base64 and '
              'timestamp text: concrete list + bug-hunting harnesses that can refute but not discharge.',
         ref='4 (C06)'),
+    'C07': dict(
+        text='Bounded proof by symbolic execution over four version pairs (A,B) generated at check time (optional/defaulted '
+             'fields added at top level, in a parent and in a child; tags added to an open union and its child union, Void '
+             'tags given primitive / nullable / struct types; a subtype and fields added under a catch-all struct; types '
+             'renamed and aliases introduced), each reached directly and through list / map / nullable / union-member / '
+             'field nesting: B-encoded symbolic values decoded leniently under A equal the A-view computed by a reference '
+             'model of docs/evolve_spec.rst, strict decoding under A rejects exactly the messages containing something A '
+             'does not know, A-encoded values decode under B (both modes) with new fields at their defaults.',
+        note='Trusted: refmodel/evolve.py (reference old/new view), CrossHair/z3, glue G1-G3. Structural bound: the four '
+             'pairs; holder structs explored one field at a time in the quick tier. Outside: the Void -> non-nullable '
+             'direction the guide does not promise, Bytes/Timestamp payloads, json string entry points.',
+        ref='4 (C07)'),
     'C08': dict(
         text='Bounded proof by symbolic execution of the validator classes with symbolic parameters AND symbolic values '
              '(all integers; all binary64 incl. NaN/inf; strings <= 4/6 chars against length bounds and a list of '
@@ -99,7 +111,6 @@ PENDING = {
     'C01': 'check under construction in this session (claimed in DESIGN.md section 4)',
     'C02': 'check under construction in this session (claimed in DESIGN.md section 4)',
     'C03': 'check under construction in this session (claimed in DESIGN.md section 4)',
-    'C07': 'check under construction in this session (claimed in DESIGN.md section 4)',
     'C10': 'check under construction in this session (claimed in DESIGN.md section 4)',
     'C11': 'check under construction in this session (claimed in DESIGN.md section 4)',
 }
